@@ -1,6 +1,7 @@
 import Brax.Lemmas.KinEquiv
 import Brax.Lemmas.ScanSpec
 import Brax.Lemmas.C05Spring
+import Brax.Lemmas.C05Pos
 /-!
 # C05 — physics does not depend on how the scene is represented
 
@@ -23,8 +24,15 @@ pipeline, …), tied to the real `scan.tree` by the exact Layer-B correspondence
   `spring.pipeline.init` and any number of contact-free `spring.pipeline.step`s commute with a rigid
   transform `g` of the whole scene (state and gravity), field by field.
 
+* `positional_step_equivariant`, `positional_steps_equivariant`, `positional_init_equivariant`,
+  `positional_trajectory_equivariant` (bottom of the file; stage lemmas in `Lemmas/C05Pos.lean`) —
+  the same for `positional.pipeline`, under the additional hypothesis `DispClear` that no joint
+  displacement of the step lies in the dead zone of `math.safe_norm` (a coordinate-wise
+  `jp.allclose(x, 0)` test, which is *not* rotation invariant: without the hypothesis the statement
+  is false of the model and of the real code — a finding, see the section below).
+
 Not proved (tied by the correspondence / observed by the search only): equivariance of a full
-`pipeline.step` of the positional and generalized pipelines (`…Stmt` below).
+`pipeline.step` of the generalized pipeline (`…Stmt` below).
 -/
 set_option linter.unusedSectionVars false
 namespace Brax.C05
@@ -143,8 +151,9 @@ example : ParentsWF [-1, 0, 0] ∧ ParentsWF (permParents 3 (fun k => [0, 2, 1].
 /-! Full statement (kept visible): one `pipeline.step` of each native pipeline commutes with `g`
 on contact-free scenes.  `forward_equivariant` is the kinematics part of it.  For the **spring**
 pipeline it is proved below (`spring_step_equivariant` … `spring_trajectory_equivariant`).  For the
-positional and generalized pipelines the dynamics part is still tied by the correspondence and
-observed by the search only.
+positional pipeline it is proved below outside the dead zone of `math.safe_norm`
+(`positional_step_equivariant` …; inside the dead zone it is false).  For the generalized pipeline
+the dynamics part is still tied by the correspondence and observed by the search only.
 
 def step_equivariant_Stmt : Prop :=
   ∀ pipeline sys state ctrl g, step (g • sys) (g • state) ctrl = g • step sys state ctrl
@@ -392,5 +401,224 @@ example : FreeRooted exSys1 ∧ exSys1.links.length = exSys1.numLinks ∧ Parent
     norm_num
   · intro a ha; simp [exSys1] at ha
 end spring
+
+/-! ## The positional pipeline: `init` and `step` commute with a rigid transform of the scene
+
+`g • sys = gSys g sys`, `g • state = gStateP g sys state q' qd'` (`Lemmas/C05Pos.lean`; the action is the
+one of the spring section, a positional state has no `i_inv`).  Stages proved one by one:
+`accUpdate_equiv` (joint forces + the spring assembly), `acceleration_equiv`, `integrateXdd_equiv`,
+`jointDisplacements_equiv` (`d_j` is a function of `j`, unchanged on non-root links and masked on free
+roots; `d_w` is rotated because `a_p.rot ↦ g.rot ⊗ a_p.rot`), `translationUpdate_equiv`,
+`rotationUpdate_equiv`, `positionAssemble_equiv` (position deltas rotate, the additive quaternion deltas
+are multiplied by `g.rot` on the left, `segment_sum` is additive), `normTf_equiv` (contact-free
+`resolve_position`), `projectXd_equiv`, `resolveVelocity_nil`, `integrateXdv_equiv`, then `com.to_world`
+and `world_to_joint` from the spring file.
+
+Hypotheses in addition to those of the spring theorem, and why each is needed:
+* `UnitRot s st` — the rotations `x_i.rot` of the state are unit quaternions.  `math.normalize` (used by
+  `integrate_xdd` and `resolve_position`) treats a quaternion with all `|q_k| ≤ 1e-8` as zero, a
+  coordinate-wise and therefore frame-dependent test; for unit rotations its argument has length `≥ 1`
+  (`normSq_qstep`, `positionAssemble_rot`).  Every state brax produces satisfies it, and the step
+  preserves it (`positional_step_unitRot`).
+* `DispClear s st act` — **the finding.**  `_translation_update` / `_rotation_update` normalise the
+  *world-frame* joint displacement `d_w` with the same `math.normalize`; a displacement of length
+  between `1e-8` and `√3·1e-8` is inside the cube `|x_k| ≤ 1e-8` in one frame (no correction at all)
+  and outside it in another (full correction).  `DispClear`: every `d_w` of this step (`pDisp`) is exactly
+  zero or longer than `√3·1e-8` — a frame-independent condition (`pDisp_equiv`).  Without it the
+  statement is false: `safeNorm3_not_rotation_invariant` (model), and on the real
+  `brax.positional.pipeline.step` (x64) a free body carrying a hinged child whose joint is separated by
+  `(9e-9, 9e-9, 0)` is left untouched by the step, while the same scene rotated by 45° about `z` gets
+  the correction (`xd.ang` differs by `1.7e-6 rad/s`, `x_i.pos` by `1.9e-10`; separations `5e-9` and
+  `9e-7` agree to `5e-15`).  See `notes/C05-deepen-positional.md`.
+
+The unconditional statement, kept visible — FALSE of the model and of the real code:
+
+def positional_step_equivariant_Stmt : Prop :=
+  ∀ inv g s st act q' qd', g.rot.IsUnit → FreeRooted s → s.links.length = s.numLinks →
+    Positional.State.WF s st = true → ActAgree s st.q st.qd q' qd' → UnitRot s st →
+    Positional.step inv (fun _ => []) (gSys g s) (gStateP g s st q' qd') act
+      = gStateP g s (Positional.step inv (fun _ => []) s st act) (inv …).1 (inv …).2
+-/
+section positional
+open C05L C05P C04L MC
+
+/-- **C05, one contact-free positional step commutes with the rigid transform `g`** — equality of
+whole states; `q`, `qd` of the result are `kinematics.inverse` (`inv`) of the transformed `j`, `jd`. -/
+theorem positional_step_equivariant (inv : List (Tf ℝ) → List (Motion ℝ) → List ℝ × List ℝ)
+    (g : Tf ℝ) (hg : g.rot.IsUnit) (s : Sys ℝ) (st : Positional.State ℝ) (act q' qd' : List ℝ)
+    (hfr : FreeRooted s) (hlinks : s.links.length = s.numLinks)
+    (hwf : Positional.State.WF s st = true) (hact : ActAgree s st.q st.qd q' qd')
+    (hunit : UnitRot s st) (hclear : DispClear s st act) :
+    Positional.step inv (fun _ => []) (gSys g s) (gStateP g s st q' qd') act
+      = gStateP g s (Positional.step inv (fun _ => []) s st act)
+          (inv (gJ g s.parents (Positional.step inv (fun _ => []) s st act).a_p
+                  (Positional.step inv (fun _ => []) s st act).a_c
+                  (Positional.step inv (fun _ => []) s st act).j)
+               (gJd g s.parents (Positional.step inv (fun _ => []) s st act).a_p
+                  (Positional.step inv (fun _ => []) s st act).xd
+                  (Positional.step inv (fun _ => []) s st act).jd)).1
+          (inv (gJ g s.parents (Positional.step inv (fun _ => []) s st act).a_p
+                  (Positional.step inv (fun _ => []) s st act).a_c
+                  (Positional.step inv (fun _ => []) s st act).j)
+               (gJd g s.parents (Positional.step inv (fun _ => []) s st act).a_p
+                  (Positional.step inv (fun _ => []) s st act).xd
+                  (Positional.step inv (fun _ => []) s st act).jd)).2 :=
+  C05P.positional_step_equivariant g hg s st act q' qd' hfr hlinks (PLenOK.of_wf hwf) hact hunit inv hclear
+
+/-- the same, read field by field (the property's wording): link poses are composed with `g`, link
+velocities rotated, joint coordinates of non-root links unchanged -/
+theorem positional_step_equivariant_fields (inv : List (Tf ℝ) → List (Motion ℝ) → List ℝ × List ℝ)
+    (g : Tf ℝ) (hg : g.rot.IsUnit) (s : Sys ℝ) (st : Positional.State ℝ) (act q' qd' : List ℝ)
+    (hfr : FreeRooted s) (hlinks : s.links.length = s.numLinks)
+    (hwf : Positional.State.WF s st = true) (hact : ActAgree s st.q st.qd q' qd')
+    (hunit : UnitRot s st) (hclear : DispClear s st act) :
+    let o := Positional.step inv (fun _ => []) s st act
+    let o' := Positional.step inv (fun _ => []) (gSys g s) (gStateP g s st q' qd') act
+    o'.x = o.x.map (Tf.doTf g) ∧ o'.xd = o.xd.map (rotM g)
+    ∧ o'.x_i = o.x_i.map (Tf.doTf g) ∧ o'.xd_i = o.xd_i.map (rotM g)
+    ∧ o'.a_c = o.a_c.map (Tf.doTf g) ∧ o'.a_p = gAp g s.parents o.a_p ∧ o'.mass = o.mass
+    ∧ (∀ i, i < s.numLinks → ¬ parentOf s.parents i < 0 →
+        nth o'.j i = nth o.j i ∧ nth o'.jd i = nth o.jd i)
+    ∧ o'.q = (inv o'.j o'.jd).1 ∧ o'.qd = (inv o'.j o'.jd).2 := by
+  intro o o'
+  have hq : o'.q = (inv o'.j o'.jd).1 := pstep_q inv _ _ _ _
+  have hqd : o'.qd = (inv o'.j o'.jd).2 := pstep_qd inv _ _ _ _
+  have hm : o'.mass = o.mass := by
+    rw [pstep_mass, pstep_mass]; rfl
+  have h : o' = gStateP g s o _ _ :=
+    positional_step_equivariant inv g hg s st act q' qd' hfr hlinks hwf hact hunit hclear
+  clear_value o o'
+  refine ⟨?_, ?_, ?_, ?_, ?_, ?_, hm, ?_, hq, hqd⟩
+  · rw [h]; rfl
+  · rw [h]; rfl
+  · rw [h]; rfl
+  · rw [h]; rfl
+  · rw [h]; rfl
+  · rw [h]; rfl
+  · intro i hi' hr
+    have hi'' : i < s.parents.length := by rw [hfr.hlen]; exact hi'
+    have hj : o'.j = gJ g s.parents o.a_p o.a_c o.j := by rw [h]; rfl
+    have hjd : o'.jd = gJd g s.parents o.a_p o.xd o.jd := by rw [h]; rfl
+    rw [hj, hjd]
+    exact ⟨gJ_nonroot g _ _ _ _ hi'' hr, gJd_nonroot g _ _ _ _ hi'' hr⟩
+
+/-- the step keeps the rotations unit (so `UnitRot` is an invariant of trajectories, not a
+hypothesis on every step) -/
+theorem positional_step_unitRot (inv : List (Tf ℝ) → List (Motion ℝ) → List ℝ × List ℝ)
+    (s : Sys ℝ) (st : Positional.State ℝ) (act : List ℝ)
+    (hfr : FreeRooted s) (hlinks : s.links.length = s.numLinks)
+    (hwf : Positional.State.WF s st = true) (hunit : UnitRot s st) :
+    UnitRot s (Positional.step inv (fun _ => []) s st act) :=
+  UnitRot.step Tf.id Q4.isUnit_one s st act st.q st.qd hfr hlinks (PLenOK.of_wf hwf)
+    (fun _ _ => ⟨rfl, rfl⟩) hunit inv
+
+/-- **C05, any number of contact-free positional steps** (`InvLocal`: `kinematics.inverse` computes
+the actuated coordinates from the rows of non-root links only; `TrajClear`: `DispClear` at every step
+of the original trajectory) -/
+theorem positional_steps_equivariant (inv : List (Tf ℝ) → List (Motion ℝ) → List ℝ × List ℝ)
+    (g : Tf ℝ) (hg : g.rot.IsUnit) (s : Sys ℝ) (hfr : FreeRooted s)
+    (hlinks : s.links.length = s.numLinks) (hinv : InvLocal s inv) (acts : List (List ℝ))
+    (st : Positional.State ℝ) (q' qd' : List ℝ) (hwf : Positional.State.WF s st = true)
+    (hunit : UnitRot s st) (hact : ActAgree s st.q st.qd q' qd') (hclear : TrajClear inv s st acts) :
+    ∃ q'' qd'', psteps inv (gSys g s) (gStateP g s st q' qd') acts
+        = gStateP g s (psteps inv s st acts) q'' qd''
+      ∧ ActAgree s (psteps inv s st acts).q (psteps inv s st acts).qd q'' qd'' :=
+  C05P.positional_steps_equivariant g hg s inv hfr hlinks hinv acts st q' qd' (PLenOK.of_wf hwf) hunit
+    hact hclear
+
+/-- **C05, `positional.pipeline.init` commutes with the rigid transform** (no dead-zone hypothesis:
+`init` normalises nothing) -/
+theorem positional_init_equivariant (g : Tf ℝ) (hg : g.rot.IsUnit) (s : Sys ℝ) (q qd q' qd' : List ℝ)
+    (hfr : FreeRooted s) (hlinks : s.links.length = s.numLinks) (hpw : ParentsWF s.parents)
+    (hok : ∀ x ∈ s.parents.zip (s.links.zip (linkSlices s.types q qd s.dofs)),
+      LinkOK x.1 x.2.1 x.2.2 ∧ (x.1 < 0 → x.2.2.typ = .free))
+    (hq : linkSlices s.types q' qd' s.dofs = (linkSlices s.types q qd s.dofs).map (xformIn g)) :
+    Positional.init (gSys g s) q' qd' = gStateP g s (Positional.init s q qd) q' qd' := by
+  apply pinit_equiv_of_forward g hg s q qd q' qd' hfr hlinks
+  rw [forward_eq_forwardIns, forward_eq_forwardIns, hq]
+  exact forward_equivariant s _ g hg hpw hok
+
+/-- **C05, positional pipeline, whole trajectories from `init`** -/
+theorem positional_trajectory_equivariant (inv : List (Tf ℝ) → List (Motion ℝ) → List ℝ × List ℝ)
+    (g : Tf ℝ) (hg : g.rot.IsUnit) (s : Sys ℝ) (q qd q' qd' : List ℝ) (acts : List (List ℝ))
+    (hfr : FreeRooted s) (hlinks : s.links.length = s.numLinks) (hpw : ParentsWF s.parents)
+    (hinv : InvLocal s inv)
+    (hok : ∀ x ∈ s.parents.zip (s.links.zip (linkSlices s.types q qd s.dofs)),
+      LinkOK x.1 x.2.1 x.2.2 ∧ (x.1 < 0 → x.2.2.typ = .free))
+    (hq : linkSlices s.types q' qd' s.dofs = (linkSlices s.types q qd s.dofs).map (xformIn g))
+    (hact : ActAgree s q qd q' qd') (hunit : UnitRot s (Positional.init s q qd))
+    (hclear : TrajClear inv s (Positional.init s q qd) acts) :
+    ∃ q'' qd'', psteps inv (gSys g s) (Positional.init (gSys g s) q' qd') acts
+        = gStateP g s (psteps inv s (Positional.init s q qd) acts) q'' qd''
+      ∧ ActAgree s (psteps inv s (Positional.init s q qd) acts).q
+          (psteps inv s (Positional.init s q qd) acts).qd q'' qd'' := by
+  rw [positional_init_equivariant g hg s q qd q' qd' hfr hlinks hpw hok hq]
+  exact C05P.positional_steps_equivariant g hg s inv hfr hlinks hinv acts _ q' qd'
+    (PLenOK.init s q qd hlinks hfr.hlen) hunit hact hclear
+
+/-! ### non-vacuity -/
+
+/-- the state of `exState` as a positional state -/
+noncomputable def exStateP : Positional.State ℝ :=
+  { q := exState.q, qd := exState.qd, x := exState.x, xd := exState.xd, x_i := exState.x_i,
+    xd_i := exState.xd_i, j := exState.j, jd := exState.jd, a_p := exState.a_p, a_c := exState.a_c,
+    mass := exState.mass }
+
+/-- every hypothesis of `positional_step_equivariant` except `DispClear` on the free root + hinged,
+motor-driven child of the spring section (for a jointed system `DispClear` is a statement about the
+result of trigonometric functions; it is the generic case — checked on the real code, not here) -/
+example : exG.rot.IsUnit ∧ FreeRooted exSys ∧ exSys.links.length = exSys.numLinks
+    ∧ Positional.State.WF exSys exStateP = true
+    ∧ ActAgree exSys exStateP.q exStateP.qd [1, -2, 4, 3/5, 0, 0, 4/5, 0.3] [0, 0, 0, 0, 0, 0, 0.1]
+    ∧ UnitRot exSys exStateP := by
+  refine ⟨?_, exSys_freeRooted, rfl, ?_, ?_, ?_⟩
+  · simp only [Q4.IsUnit, Q4.normSq, exG]; norm_num
+  · simp [Positional.State.WF, exSys, exStateP, exState, Sys.numLinks, Sys.nq, Sys.nv, LinkType.qWidth,
+      LinkType.qdWidth]
+  · intro a ha
+    simp only [exSys, List.mem_singleton] at ha
+    subst ha
+    simp [nthS, exStateP, exState]
+  · intro i hi
+    have hi' : i < 2 := hi
+    match i, hi' with
+    | 0, _ => simp [nth, exStateP, exState, Q4.IsUnit, Q4.normSq, Q4.one]
+    | 1, _ => simp [nth, exStateP, exState, Q4.IsUnit, Q4.normSq, Q4.one]
+
+/-- a positional state of the single free body `exSys1` -/
+noncomputable def exStateP1 : Positional.State ℝ :=
+  { q := [0, 0, 1, 1, 0, 0, 0], qd := [1, 0, 0, 0, 0, 0.5],
+    x := [⟨⟨0, 0, 1⟩, Q4.one⟩], xd := [⟨⟨0, 0, 0.5⟩, ⟨1, 0, 0⟩⟩],
+    x_i := [⟨⟨0, 0, 1⟩, Q4.one⟩], xd_i := [⟨⟨0, 0, 0.5⟩, ⟨1, 0, 0⟩⟩],
+    j := [⟨⟨0, 0, 1⟩, Q4.one⟩], jd := [⟨⟨0, 0, 0.5⟩, ⟨1, 0, 0⟩⟩],
+    a_p := [Tf.id], a_c := [⟨⟨0, 0, 1⟩, Q4.one⟩], mass := [1] }
+
+/-- **all** hypotheses of `positional_step_equivariant` / `positional_steps_equivariant` (including
+`DispClear` / `TrajClear`, for every control sequence) hold on a single free body -/
+example (inv : List (Tf ℝ) → List (Motion ℝ) → List ℝ × List ℝ) (acts : List (List ℝ)) :
+    exG.rot.IsUnit ∧ FreeRooted exSys1 ∧ exSys1.links.length = exSys1.numLinks
+    ∧ Positional.State.WF exSys1 exStateP1 = true
+    ∧ ActAgree exSys1 exStateP1.q exStateP1.qd [1, -2, 4, 3/5, 0, 0, 4/5] [-7/25, 24/25, 0, 0, 0, 0.5]
+    ∧ UnitRot exSys1 exStateP1 ∧ InvLocal exSys1 (fun _ _ => ([], []))
+    ∧ (∀ st, TrajClear inv exSys1 st acts) := by
+  have hfree : ∀ i, i < exSys1.numLinks → exSys1.types[i]? = some .free := by
+    intro i hi
+    have hi' : i < 1 := hi
+    match i, hi' with
+    | 0, _ => simp [exSys1]
+  refine ⟨?_, exSys1_freeRooted, rfl, ?_, ?_, ?_, ?_, ?_⟩
+  · simp only [Q4.IsUnit, Q4.normSq, exG]; norm_num
+  · simp [Positional.State.WF, exSys1, exSys, exStateP1, Sys.numLinks, Sys.nq, Sys.nv, LinkType.qWidth,
+      LinkType.qdWidth]
+  · intro a ha; simp [exSys1] at ha
+  · intro i hi
+    have hi' : i < 1 := hi
+    match i, hi' with
+    | 0, _ => simp [nth, exStateP1, Q4.IsUnit, Q4.normSq, Q4.one]
+  · intro j j' jd jd' _ a ha; simp [exSys1] at ha
+  · induction acts with
+    | nil => intro st; trivial
+    | cons a as ih => intro st; exact ⟨dispClear_of_free exSys1 st a hfree, ih _⟩
+end positional
 
 end Brax.C05
